@@ -65,6 +65,12 @@ def gen_repo(r, portable=False, with_dist=None, ignored_dirs=True, complete=Fals
                     t.add_file(d + '/Manifest.gz', ET.compress('gz', dist * r.choice([1, 1, 6])))
                 else:
                     t.add_file(d + '/Manifest', dist)
+    if not portable and r.random() < 0.06:
+        # a file that carries the name Manifest but is not one (free text), where the ebuild profiles want a Manifest
+        junk_dir = r.choice(sorted(d for d, ro in roles.items() if ro in ('package', 'category')) or [''])
+        if junk_dir and t.lookup(junk_dir + '/Manifest') is None and t.lookup(junk_dir + '/Manifest.gz') is None:
+            t.add_file(junk_dir + '/Manifest', b'this is not a Manifest\n<<<<<<< merge conflict\n')
+            c.meta['junk_manifest'] = junk_dir + '/Manifest'
     if r.random() < 0.7 or complete:
         mkdir('eclass', 'eclass')
         for k in range(r.randint(0, 3)):
@@ -186,11 +192,14 @@ def check_created(c, files, profile, overrides):
     probs = []
     t = c.tree
     mdirs = {}
+    junk = c.meta.get('junk_manifest')
+    if junk is not None and junk in files and OX.parse(junk, files[junk]) is not None:
+        junk = None                # it has been replaced by a real Manifest: judged like one
     for p in files:
         b = os.path.basename(p)
-        if b in ('Manifest', 'Manifest.gz', 'Manifest.bz2', 'Manifest.xz', 'Manifest.lzma'):
+        if b in ('Manifest', 'Manifest.gz', 'Manifest.bz2', 'Manifest.xz', 'Manifest.lzma') and p != junk:
             mdirs.setdefault(os.path.dirname(p), []).append(p)
-    had = {os.path.dirname(p) for p, _ in t.files() if os.path.basename(p) == 'Manifest'}
+    had = {os.path.dirname(p) for p, _ in t.files() if os.path.basename(p) == 'Manifest' and p != junk}
     # Manifests found compressed: they stay (as a Manifest of that directory); whether they stay compressed is the watermark's business
     had_gz = {os.path.dirname(p): t.nodes[ino]['data'] for p, ino in t.files() if os.path.basename(p).startswith('Manifest.')}
     want = expected_manifest_dirs(c) if profile != 'default' else {''}
